@@ -58,6 +58,9 @@ func renderEvents(r evRow) (contract, program string, script bool) {
 	case "stmt":
 		return "access(all) contract C {\n" + evStructS +
 			"  access(all) event Ev(" + ps + ")\n  access(all) fun fire() { emit Ev(" + as + ") }\n}", tx("C.fire()"), false
+	case "refs":
+		return "access(all) contract C {\n" + evStructS +
+			"  access(all) event Ev(" + ps + ")\n  access(all) fun fire() { let s = S(a: 2); let r = &s as &S; let r2 = &s as &S; emit Ev(" + as + ") }\n}", tx("C.fire()"), false
 	case "script":
 		return "", "access(all) event Ev(" + ps + ")\naccess(all) fun main() { emit Ev(" + as + ") }", true
 	case "pre":
